@@ -149,6 +149,64 @@ def make_replicas(d, cov_type):
                       bounds=f"2 points (weights 2,1) vs 3 points (weights 1,1,1), d={d}, K=2", theory="QF_NRA", timeout_ms=30000)
 
 
+def make_mstep_rounding(n=2, cov_type="full", xmax=10 ** 8):
+    """the M-step in the round-off model of binary64 (vf.engine.rnd): data of any magnitude up to xmax, responsibilities and sample
+    weights in [0,1], component of non-negligible mass. A covariance formula that subtracts moments (E[xx^T] - mu mu^T) loses
+    positive semidefiniteness through cancellation; the centred formula cannot (every term keeps its sign under rounding)."""
+    from vf.engine.rnd import SymRnd, FloatNonFinite, rnd_array
+
+    def harness(ctx: PathCtx):
+        X = [[real(ctx, f"x{i}", lo=-xmax, hi=xmax)] for i in range(n)]
+        R = [[real(ctx, f"r{i}", lo=0, hi=1)] for i in range(n)]
+        w = [real(ctx, f"w{i}", lo=0, hi=1) for i in range(n)]
+        ctx.assume(_sum([R[i][0] * w[i] for i in range(n)]).n >= z3.RealVal("1/1000") * _sum([R[i][0] * w[i] for i in range(n)]).d)
+        gm = GaussianMixture(n_components=1, covariance_type=cov_type)
+        try:
+            weights, means, covs = run_mstep(gm, rnd_array(X, (-xmax, xmax)), rnd_array(R, (0, 1)), rnd_array(w, (0, 1)))
+        except FloatNonFinite as e:
+            ctx.fail("m-step-results-finite", str(e))
+            return None
+        ctx.ok("m-step-results-finite")
+        c = SymRnd.lift(covs[0][0][0] if cov_type == "full" else covs[0][0]).v
+        ctx.check("variance-nonnegative-under-rounding", le(0, c))
+        wsum = SymRnd.lift(_sum(list(weights))).v
+        eps = Fraction(1, 10 ** 9)
+        ctx.check("weights-sum-to-one-under-rounding", z3.And(le(1 - eps, wsum), le(wsum, 1 + eps)))
+        return None
+
+    def replay(m, label, v):
+        """cancellation needs data far from the origin relative to its spread: the model's point, then the same configuration
+        translated / tightened (responsibilities and weights from the model)."""
+        R = np.array([[float(m.get(f"r{i}", 1.0))] for i in range(n)])
+        w = np.array([float(m.get(f"w{i}", 1.0)) for i in range(n)])
+        if (R[:, 0] * w).sum() < 1e-3:
+            R, w = np.ones((n, 1)), np.ones(n) / n
+        x0 = np.array([[float(m.get(f"x{i}", 0.0))] for i in range(n)])
+        cands = [x0]
+        for off in (1e4, 1e6, 1e7, 9e7):
+            for spread in (1e-3, 1e-5, 1e-7, 0.0):
+                for sgn in (1.0, -1.0):
+                    cands.append(sgn * (off + spread * np.arange(n, dtype=float).reshape(n, 1) * np.array([[1.0]])))
+                    cands.append(sgn * (off + spread * np.array([[(7 * i) % 3 - 1.0] for i in range(n)])))
+        for Rr, ww in ((R, w), (np.ones((n, 1)), np.ones(n) / n), (np.full((n, 1), 1 / 3), np.linspace(0.3, 1.0, n))):
+            for X in cands:
+                gm = GaussianMixture(n_components=1, covariance_type=cov_type)
+                with np.errstate(all="ignore"):
+                    weights, means, covs = gm._m_step(X.copy(), Rr.copy(), ww.copy())
+                c = float(np.asarray(covs).ravel()[0])
+                if not (c >= 0) or not math.isclose(float(np.sum(weights)), 1.0, rel_tol=1e-9):
+                    return {"reproduced": True, "signature": f"m_step:{cov_type}:negative-variance-by-cancellation" if not (c >= 0) else f"m_step:{cov_type}:weights-sum",
+                            "payload": {"X": X.ravel().tolist(), "resp": Rr.ravel().tolist(), "w": ww.tolist(), "variance": c, "weights": np.asarray(weights).tolist()},
+                            "what": f"GaussianMixture({cov_type})._m_step on X={X.ravel().tolist()}, resp={Rr.ravel().tolist()}, w={ww.tolist()} gives variance {c!r} "
+                                    f"and weights {np.asarray(weights).tolist()}"}
+        return {"reproduced": False, "what": "no double-precision instance of the cancellation found in the replay family"}
+
+    return Obligation(f"mstep-roundoff-{cov_type}-n{n}-d1", harness, replay=replay, encodes=[GaussianMixture._m_step, GaussianMixture._compute_covariances],
+                      bounds=f"n={n} points, d=1, K=1: |x| <= {xmax}, responsibilities and sample weights in [0,1], component mass >= 1e-3",
+                      stubs=["binary64 + - * / -> standard round-off model with gradual underflow and sign preservation (sound over-approximation)", "np.zeros -> object arrays"],
+                      theory="QF_NRA", timeout_ms=120000)
+
+
 def make_mstep_fp(n=2):
     """bit-precise: the 'full' covariance of one component in d=1 is never negative, for ALL doubles in a wide range
     (catastrophic cancellation in a moment-difference formula would show up here)."""
@@ -322,12 +380,14 @@ def make_hier(n, max_iterations, normalize, contiguous=False, refit=False):
 
 
 def obligations(tier):
-    # make_mstep_fp (bit-precise variance >= 0) is not scheduled: the QF_FP query with multipliers/dividers did not finish in 290 s
+    # make_mstep_fp (bit-precise variance >= 0) is not scheduled: the QF_FP query with multipliers/dividers did not finish in 290 s;
+    # make_mstep_rounding decides the same clause in the standard round-off model instead (sound for the real arithmetic)
     obs = [make_mstep(2, 1, 2, "full"), make_mstep(2, 2, 2, "diag"), make_mstep(2, 2, 1, "full"), make_mstep(3, 1, 1, "full"), make_replicas(1, "full"),
            make_hier(6, 1, True), make_hier(5, 2, False), make_hier(8, 2, False, contiguous=True),
-           make_hier(4, 1, True, refit=True)]
+           make_hier(4, 1, True, refit=True), make_mstep_rounding(2, "full")]
     if tier == "thorough":
         # (n=3 with K=2 or d=2: the PSD query is undecided by nlsat within 30 s - not scheduled)
         obs += [make_mstep(2, 2, 2, "full"), make_mstep(3, 1, 1, "diag"), make_replicas(2, "full"), make_replicas(1, "diag"),
-                make_hier(6, 2, True), make_hier(7, 2, False), make_hier(5, 1, False, refit=True), make_hier(6, 1, True, contiguous=True, refit=True)]
+                make_hier(6, 2, True), make_hier(7, 2, False), make_hier(5, 1, False, refit=True), make_hier(6, 1, True, contiguous=True, refit=True),
+                make_mstep_rounding(3, "full"), make_mstep_rounding(2, "diag")]
     return obs
